@@ -157,6 +157,45 @@ def run(ctx):
             l2 += 1
             ctx.violation("c11-lessthan-correspondence", {"stage": "L2", "case": [c, k], "implementation": flagged, "model": m,
                                                           "broken": "correspondence Curve.rangeChecked <-> find_unconstrained_less_than"}, no_input=True)
+    # ---- a range-check component that is instantiated in two ways (audit C11 f1): the input counts as range-checked only if every
+    #      instantiation that may reach it qualifies
+    reqs, meta = [], []
+    for c in CURVES:
+        small = 8
+        big = {"BN254": 254, "BLS12_381": 255, "GOLDILOCKS": 64}[c]
+        for (k1, k2) in ((small, big), (big, small), (small, small), (big, big), (small, small + 1)):
+            for shape in ("branches", "sequence"):
+                inst = ("if (n == 1) { rc = Num2Bits(%s); } else { rc = Num2Bits(%s); }" % (k1, k2) if shape == "branches"
+                        else "rc = Num2Bits(%s); rc = Num2Bits(%s);" % (k1, k2))
+                src = ("template T(n) { signal input a; signal input b; signal output o; component lt = LessThan(8); component rc; component rb = Num2Bits(%d); %s "
+                       "rc.in <== a; rb.in <== b; lt.in[0] <== a; lt.in[1] <== b; o <== lt.out; }" % (small, inst))
+                reqs.append(json.dumps({"src": src, "curve": c}))
+                meta.append((c, k1, k2, shape))
+    for (c, k1, k2, shape), i, rq in zip(meta, vlib.run_harness("defpasses", reqs), reqs):
+        evals += 1
+        ir = json.loads(i) if i.startswith("{") else {"error": i}
+        flagged = sum(1 for r in ir.get("reports", []) if r["id"] == "CS0014")
+        ok_all = all(2 ** k - 1 <= primes[c] // 2 for k in (k1, k2))
+        # "counts as range-checked only if": when some instantiation does not qualify the input must be flagged; when all qualify the tool
+        # may still decline to track a component that is instantiated in different ways (imprecision, allowed)
+        want = 1 if not ok_all else flagged
+        if "error" in ir or flagged != want or flagged > 1:
+            l1 += 1
+            ctx.violation("c11-lessthan-instantiated-twice %s" % c, {"stage": "L1 every instantiation of the range check must qualify", "input": rq, "sizes": [k1, k2],
+                                                                     "implementation_flags": flagged, "specified": want, "error": ir.get("error"), "broken": None})
+    # ---- the instantiation in `component main = T(...)` (audit C11 f2): it is an instantiation like any other
+    with vlib.Workdir("c11m") as wdm:
+        mains = [("BLS12_381", "Sign", "()", "pragma circom 2.0.0;\ntemplate Sign() { signal input in[254]; signal output sign; sign <== in[0]; }\n", "CS0012"),
+                 ("BN254", "Num2Bits", "(254)", "pragma circom 2.0.0;\ntemplate Num2Bits(n) { signal input in; signal output out[n]; for (var i = 0; i < n; i++) { out[i] <-- (in >> i) & 1; out[i] * (out[i] - 1) === 0; } }\n", "CS0011")]
+        reqm = []
+        for c, t, args, text, rid in mains:
+            p = wdm.write("main_%s.circom" % t, (text + "component main = %s%s;\n" % (t, args)).encode())
+            reqm.append({"inputs": [p], "libs": [], "curve": c})
+        for (c, t, args, text, rid), rep in zip(mains, vlib.analyze(reqm)):
+            evals += 1
+            ids = [r["id"] for r in vlib.reports_of(rep)] if "crash" not in rep else ["crash"]
+            if rid not in ids:
+                ctx.violation("c11-main-component %s" % t, {"stage": "L1 the main component is an instantiation", "curve": c, "template": t, "reports": ids, "broken": None})
     # ---- curve names -----------------------------------------------------------------------
     canon = {"BN254": "BN254", "BLS12_381": "BLS12_381", "GOLDILOCKS": "Goldilocks"}
     spell = set()
